@@ -34,13 +34,14 @@ type TDgram struct {
 }
 
 type TransferScenario struct {
-	Seed      uint64    `json:"seed"`
-	Cfg       WConfig   `json:"cfg"`
-	Net       WNet      `json:"net"`
-	Faults    []WFault  `json:"faults"`
-	Streams   []TStream `json:"streams"`
-	Dgrams    []TDgram  `json:"dgrams,omitempty"`
-	HorizonMS int64     `json:"horizon_ms"`
+	Seed        uint64    `json:"seed"`
+	Cfg         WConfig   `json:"cfg"`
+	Net         WNet      `json:"net"`
+	Faults      []WFault  `json:"faults"`
+	Streams     []TStream `json:"streams"`
+	Dgrams      []TDgram  `json:"dgrams,omitempty"`
+	HorizonMS   int64     `json:"horizon_ms"`
+	ForeignPeer bool      `json:"foreign_peer,omitempty"` // at the end: a packet framed unlike the in-tree sender's (ACK frame last) is played to the client
 }
 
 func (s *TransferScenario) KSeed() uint64 { return s.Seed }
@@ -154,6 +155,7 @@ func genTransfer(seed uint64, tier string) KScenario {
 	// faults stop at some point so that liveness can be judged afterwards
 	sc.Net.FaultUntilMS = int64(r.Pick(500, 2000, 5000, 20000))
 	sc.HorizonMS = 0 // computed from the configuration at run time
+	sc.ForeignPeer = r.P(0.3)
 	return sc
 }
 
@@ -635,6 +637,11 @@ func runTransfer(t *testing.T, ksc KScenario, res *KResult) {
 	}
 	if conns[0].Context().Err() == nil && conns[1].Context().Err() == nil && complete {
 		time.Sleep(100 * time.Millisecond) // let the last ACKs fly
+		// (not with forced key updates every few packets: after losses the observer's idea of the server's key generation
+		// may be more than one ahead of what the client can follow)
+		if on := wOraclesEnabled("C01"); sc.ForeignPeer && sc.Cfg.KeyUpdate == 0 && (on["C07"] || on["all"]) {
+			tForeignPeerProbe(w, wo, res)
+		}
 	}
 	conns[0].CloseWithError(0, "done")
 	conns[1].CloseWithError(0, "done")
@@ -665,6 +672,82 @@ func runTransfer(t *testing.T, ksc KScenario, res *KResult) {
 		judgeFailure(w, &sc.Cfg, &sc.Net, len(sc.Faults), res, cause[0], cause[1], false, horizon)
 	} else {
 		res.Probe("all-complete")
+	}
+}
+
+// tForeignPeerProbe (C07, "every ack-eliciting packet is covered by an ACK that becomes due no later than the maximum ack delay"):
+// at the very end of a completed run the simulator plays a server that frames its packets unlike the in-tree sender - the ACK
+// frame LAST, behind the ack-eliciting frames (legal: RFC 9000 puts no order on frames) - and watches for the client's
+// acknowledgment. The client's answers are kept from the real server (an outage from now on), which never sent that number.
+func tForeignPeerProbe(w *World, wo *WireOracles, res *KResult) {
+	w.mu.Lock()
+	w.Tap.mu.Lock()
+	var last *TapPacket
+	for _, p := range w.Tap.All {
+		if p.Dir == 1 && p.Type == Tap1RTT && p.Opened && p.Conn != nil && !p.Conn.Shadow {
+			last = p
+		}
+	}
+	var pkt []byte
+	var pn uint64
+	var c *TapConn
+	if last != nil {
+		c = last.Conn
+		pn = uint64(c.largest[1][2] + 1)
+		// the acknowledged number is the first 1-RTT packet the client sent (long acknowledged; a recent one may already
+		// belong to the client's next key generation, which this peer - still on the old one - cannot have seen)
+		ackd := uint64(0)
+		for _, p := range c.Packets {
+			if p.Dir == 0 && p.Type == Tap1RTT && p.Opened {
+				ackd = uint64(p.PN)
+				break
+			}
+		}
+		// PING, PING, then ACK{largest = that number, delay 0, no further ranges, first range 0}
+		payload := []byte{0x01, 0x01, 0x02}
+		payload = append(payload, wVarint(ackd)...)
+		payload = append(payload, 0, 0, 0)
+		pkt = c.tapSeal1RTT(1, last.DCID, pn, payload)
+		if pkt != nil {
+			wo.acct(c).delivered[1][2][int64(pn)] = true // the client is about to be delivered this number
+		}
+	}
+	nowMS := w.NowNS() / 1e6
+	w.Net.Outages = append(w.Net.Outages, WOutage{Dir: 0, FromMS: nowMS, ToMS: nowMS + 1000000})
+	w.Tap.mu.Unlock()
+	w.mu.Unlock()
+	if pkt == nil {
+		return
+	}
+	t0 := w.NowNS()
+	w.InjectTo(1, pkt)
+	time.Sleep(60 * time.Millisecond) // max_ack_delay is 25 ms (20 ms for some fingerprints) plus timer granularity
+	w.mu.Lock()
+	w.Tap.mu.Lock()
+	acked := false
+	for _, p := range c.Packets {
+		if p.Dir != 0 || p.SentNS < t0 {
+			continue
+		}
+		for i := range p.Frames {
+			if f := &p.Frames[i]; f.Name == "ACK" && len(f.Ranges) > 0 && f.Ranges[0][1] >= pn && f.Ranges[0][0] <= pn {
+				acked = true
+			}
+		}
+	}
+	w.Tap.mu.Unlock()
+	w.mu.Unlock()
+	res.Probe("foreign-peer-probe")
+	if !acked && res.KeepLog && wo.n != nil {
+		for _, e := range wo.n.QLog[0].Events {
+			if e.AtNS >= t0 {
+				res.Logf("client qlog after the probe: %d %T %+v", e.AtNS/1000, e.Ev, e.Ev)
+			}
+		}
+		res.Logf("probe: phase %d, dcid %x, pn %d, %d bytes", c.phase[1], last.DCID, pn, len(pkt))
+	}
+	if !acked {
+		res.Fail("ack-eliciting packet of a peer that puts its ACK frame last was not acknowledged within the maximum ack delay", "packet number %d injected at %v: no ACK covering it within 60 ms", pn, time.Duration(t0))
 	}
 }
 
